@@ -158,3 +158,26 @@ def family_c13(prop, fail, unit_res, repo, verif, build):
 
 
 FAMILIES["C13"] = family_c13
+
+
+def family_c24(prop, fail, unit_res, repo, verif, build, timeout=900):
+    """replay/c24_shim: the real distributed-walrus/src/client.rs over an in-memory tokio shim."""
+    d = os.path.join(build, "replay-c24_shim")
+    if os.path.exists(d):
+        shutil.rmtree(d)
+    shutil.copytree(os.path.join(verif, "replay", "c24_shim"), d, ignore=shutil.ignore_patterns("target"))
+    lib = os.path.join(d, "src", "lib.rs")
+    src = open(lib).read().replace("@CLIENT@", os.path.join(repo, "distributed-walrus/src/client.rs"))
+    open(lib, "w").write(src)
+    env = dict(os.environ, CARGO_NET_OFFLINE="true", CARGO_TARGET_DIR=os.path.join(build, "replay-c24_shim-target"))
+    p = subprocess.run(["cargo", "run", "--offline", "--release", "-q", "--bin", "c24_family"], cwd=d, env=env, capture_output=True, text=True, timeout=timeout)
+    last = [l for l in p.stdout.splitlines() if l.startswith("{")]
+    if not last:
+        return dict(counterexample=None, counterexample_search="c24_shim gave no verdict (rc=%d): %s" % (p.returncode, p.stderr[-600:]))
+    v = json.loads(last[-1])
+    if v.get("found"):
+        return dict(counterexample=v, counterexample_search="scenario family replay/c24_shim run natively against the real client.rs (in-memory tokio shim)")
+    return dict(counterexample=None, counterexample_search="scenario family replay/c24_shim: %s streams, none failed" % v.get("tried"))
+
+
+FAMILIES["C24"] = family_c24
